@@ -13,16 +13,22 @@ import (
 // Solver is one persistent SMT solver process (z3 -in by default). Not safe for concurrent use;
 // every worker owns one.
 type Solver struct {
-	bin       []string
-	cmd       *exec.Cmd
-	in        io.WriteCloser
-	out       *bufio.Reader
-	decl      map[string]bool
-	defined   map[int]string
-	scopes    []scopeRec
-	lines     [][]string // asserted/declared lines per scope level (for self-contained dumps)
-	timeoutMs int
-	oneShot   bool // every query is sent as a fresh script after (reset): z3 then uses its tactic pipeline, not the incremental core
+	bin         []string
+	cmd         *exec.Cmd
+	in          io.WriteCloser
+	out         *bufio.Reader
+	decl        map[string]bool
+	defined     map[int]string
+	scopes      []scopeRec
+	assertedIDs map[int]bool
+	useCores    bool
+	coreCache   map[int][][]int // extra-term id -> unsat cores (ids of asserted terms); a query whose path condition contains a core is unsat
+	coreHits    int
+	coreStored  int
+	lines       [][]string // asserted/declared lines per scope level (for self-contained dumps)
+	timeoutMs   int
+	logic       string
+	oneShot     bool // every query is sent as a fresh script after (reset): z3 then uses its tactic pipeline, not the incremental core
 
 	queries, nsat, nunsat, nunknown int
 	dur                             time.Duration
@@ -44,7 +50,8 @@ type querySample struct {
 }
 
 func NewSolver(bin []string, timeoutMs int) *Solver {
-	s := &Solver{bin: bin, timeoutMs: timeoutMs, oneShot: os.Getenv("VERIF_INCREMENTAL") == ""}
+	s := &Solver{bin: bin, timeoutMs: timeoutMs, oneShot: os.Getenv("VERIF_INCREMENTAL") == "", coreCache: map[int][][]int{}}
+	s.useCores = s.oneShot && os.Getenv("VERIF_CORES") != "" // measured: produce-unsat-cores makes z3 4-5x slower per query; off by default
 	s.start()
 	return s
 }
@@ -76,6 +83,7 @@ func (s *Solver) resetState() {
 	s.defined = map[int]string{}
 	s.scopes = nil
 	s.lines = [][]string{{}}
+	s.assertedIDs = map[int]bool{}
 }
 
 func (s *Solver) raw(l string) { io.WriteString(s.in, l+"\n") }
@@ -122,6 +130,9 @@ func (s *Solver) Reset() {
 	if !s.oneShot {
 		s.raw("(reset)")
 		s.raw(fmt.Sprintf("(set-option :timeout %d)", s.timeoutMs))
+		if l := os.Getenv("VERIF_LOGIC"); l != "" {
+			s.raw("(set-logic " + l + ")")
+		}
 	}
 	s.resetState()
 }
@@ -207,7 +218,33 @@ func (s *Solver) Assert(t *Term) {
 	if t.True() {
 		return
 	}
+	if len(s.scopes) == 0 {
+		if s.assertedIDs[t.id] {
+			return
+		}
+		s.assertedIDs[t.id] = true
+		if s.useCores {
+			s.send(fmt.Sprintf("(assert (! %s :named a%d))", s.ref(t), t.id))
+			return
+		}
+	}
 	s.send("(assert " + s.ref(t) + ")")
+}
+
+func (s *Solver) cachedUnsat(extra *Term) bool {
+	for _, core := range s.coreCache[extra.id] {
+		ok := true
+		for _, id := range core {
+			if !s.assertedIDs[id] {
+				ok = false
+				break
+			}
+		}
+		if ok {
+			return true
+		}
+	}
+	return false
 }
 
 func (s *Solver) script() string {
@@ -219,12 +256,19 @@ func (s *Solver) script() string {
 		}
 	}
 	sb.WriteString("(check-sat)\n")
+	if s.logic != "" {
+		return "(set-logic " + s.logic + ")\n" + sb.String()
+	}
 	return sb.String()
 }
 
 // Check decides satisfiability of (asserted ∧ extra). If vars != nil and the answer is sat,
 // the model restricted to vars is returned.
 func (s *Solver) Check(extra *Term, vars []*Term) (string, map[string]uint64) {
+	if s.useCores && len(s.scopes) == 0 && s.cachedUnsat(extra) {
+		s.coreHits++
+		return "unsat", nil
+	}
 	t0 := time.Now()
 	s.Push()
 	s.Assert(extra)
@@ -235,6 +279,12 @@ func (s *Solver) Check(extra *Term, vars []*Term) (string, map[string]uint64) {
 		var sb strings.Builder
 		sb.WriteString("(reset)\n")
 		fmt.Fprintf(&sb, "(set-option :timeout %d)\n", s.timeoutMs)
+		if s.useCores {
+			sb.WriteString("(set-option :produce-unsat-cores true)\n")
+		}
+		if s.logic != "" {
+			sb.WriteString("(set-logic " + s.logic + ")\n")
+		}
 		for _, lv := range s.lines {
 			for _, l := range lv {
 				sb.WriteString(l)
@@ -265,13 +315,16 @@ func (s *Solver) Check(extra *Term, vars []*Term) (string, map[string]uint64) {
 		}
 	case "unsat":
 		s.nunsat++
+		if s.useCores && len(s.scopes) == 1 {
+			s.storeCore(extra)
+		}
 	default:
 		s.nunknown++
 		r = "unknown"
 	}
 	s.Pop()
 	d := time.Since(t0)
-	if dir := os.Getenv("VERIF_DUMP_SLOW"); dir != "" && d > 3*time.Second {
+	if dir := os.Getenv("VERIF_DUMP_SLOW"); dir != "" && (d > 3*time.Second || (os.Getenv("VERIF_DUMP_ALL") != "" && s.queries%20 == 0)) {
 		s.Push()
 		s.Assert(extra)
 		os.WriteFile(fmt.Sprintf("%s/slow-%d-%d-%s.smt2", dir, os.Getpid(), s.queries, r), []byte(s.script()), 0o644)
@@ -285,6 +338,39 @@ func (s *Solver) Check(extra *Term, vars []*Term) (string, map[string]uint64) {
 		// a timed-out z3 may be in a bad state; restart it lazily by the caller's next Reset.
 	}
 	return r, model
+}
+
+// storeCore asks for the unsat core of the query just answered and caches it under the extra term.
+func (s *Solver) storeCore(extra *Term) {
+	s.raw("(get-unsat-core)")
+	out := s.readSexp()
+	if strings.HasPrefix(out, "(error") {
+		return
+	}
+	out = strings.NewReplacer("(", " ", ")", " ").Replace(out)
+	var core []int
+	for _, f := range strings.Fields(out) {
+		if !strings.HasPrefix(f, "a") {
+			return
+		}
+		var id int
+		if _, err := fmt.Sscanf(f[1:], "%d", &id); err != nil {
+			return
+		}
+		if !s.assertedIDs[id] {
+			return // a name that is not a path-condition assertion (the extra term is asserted unnamed)
+		}
+		core = append(core, id)
+	}
+	if len(core) > 24 {
+		return
+	}
+	l := s.coreCache[extra.id]
+	if len(l) >= 12 {
+		l = l[1:]
+	}
+	s.coreCache[extra.id] = append(l, core)
+	s.coreStored++
 }
 
 func (s *Solver) getValues(vars []*Term) map[string]uint64 {
